@@ -232,7 +232,7 @@ def _solve(lu, b, trans):
     b = np.asarray(_obj(np.asarray(b, dtype=object)))
     _counter[0] += 1
     x = S.symarray("solve%d_x" % _counter[0], b.shape)
-    SOLVES.append(dict(kind=lu.kind, A=lu.A, b=b.copy(), x=x, trans=trans))
+    SOLVES.append(dict(kind=lu.kind, A=lu.A, b=b.copy(), x=x.copy(), trans=trans))      # the caller may edit the returned array in place
     return x
 
 
